@@ -366,6 +366,16 @@ def from_appender(F, f, ex, e, appenders, depth=0):
     for x in dep_exprs(ex, e):
         if any(y[0] == "call" and y[1] in names for y in expr.walk(x)):
             return True
+    # ... or is the value returned by a local function whose every return value comes from the appender
+    for x in dep_exprs(ex, e):
+        for y in expr.walk(x):
+            if y[0] == "call" and depth < 3:
+                tp = [p for p in F.fns if core.strip_generics(p) == y[1]]
+                if len(tp) == 1 and tp[0] != f.path:
+                    g = F.fns[tp[0]]
+                    gx = expr.Expr(F, g)
+                    if from_appender(F, g, gx, gx.of_local(0, 0), appenders, depth + 1):
+                        return True
     root = strip_casts(e)
     if root[0] == "arg" and depth < 3:
         n = root[1]
